@@ -246,8 +246,10 @@ var ctxFlavour, e2eRun int
 
 type scriptedOp struct {
 	mu    sync.Mutex
-	times []time.Time
-	outs  []any // nil or string
+	times []time.Time   // start of each attempt
+	ends  []time.Time   // end of each attempt
+	outs  []any         // nil or string
+	takes time.Duration // every attempt takes this long before it returns (a real request is not instantaneous)
 }
 
 func (s *scriptedOp) call() error {
@@ -255,6 +257,10 @@ func (s *scriptedOp) call() error {
 	defer s.mu.Unlock()
 	i := len(s.times)
 	s.times = append(s.times, time.Now())
+	if s.takes > 0 {
+		time.Sleep(s.takes)
+	}
+	defer func() { s.ends = append(s.ends, time.Now()) }()
 	if i >= len(s.outs) || s.outs[i] == nil {
 		return nil
 	}
@@ -381,6 +387,9 @@ func runExecuteCase(c *hk.Ctx, cfg *mcp.VerifRetryConfig, script []any, cancelAt
 	nt   bool
 }) {
 	op := &scriptedOp{outs: script}
+	if ctxFlavour%3 == 1 && cancelAt == nil {
+		op.takes = 7 * time.Millisecond // the k-th wait counts from the failure of the attempt, however long the attempt took
+	}
 	// the caller's context in the flavours callers use: plain cancel, cancel with an application cause, a child of a context
 	// cancelled with a cause. Whatever the flavour, a cancelled sequence ends with the context's error (ctx.Err()).
 	ctxFlavour++
@@ -457,7 +466,7 @@ func runExecuteWith(c *hk.Ctx, cfg *mcp.VerifRetryConfig, script []any, cancelAt
 	}
 	gaps := []int64{}
 	for i := 1; i < len(op.times); i++ {
-		gaps = append(gaps, int64(op.times[i].Sub(op.times[i-1])))
+		gaps = append(gaps, int64(op.times[i].Sub(op.ends[i-1]))) // the wait starts when the failed attempt has returned
 	}
 	r.op = map[string]any{"c": "retry.execute", "cfg": cj, "script": script, "cancelAt": ca}
 	r.impl = map[string]any{"attempts": len(op.times), "result": result, "waits": gaps, "elapsed": int64(end.Sub(start))}
